@@ -679,3 +679,102 @@ def check_C16(P, tier):
                   "functions": ["MetConfig.n_timesteps", "MetConfig.get_step", "MetConfig.validate", "BLDFMConfig.__post_init__", "run_bldfm_timeseries", "run_bldfm_parallel", "cmd_run"], "paths": 0}
     R.extra = {"exhaustive": True}
     return R, "abstract interpretation over all list/scalar patterns with symbolic lengths; path rule on validate()"
+
+
+# --------------------------------------------------------------------------
+# C17 geolocation
+
+
+def _single(P, modname, fname, args, kwargs=None):
+    res = CM.run_paths(P, modname, fname, args, kwargs or {})
+    rets = [r for r in res if r.kind == "return"]
+    if len(res) != 1 or len(rets) != 1:
+        raise AnalysisError("%s.%s: expected one straight path, got %s" % (modname, fname, [(r.kind, r.raise_desc) for r in res]))
+    return rets[0]
+
+
+def geo_forward(P, lat, lon, rlat, rlon):
+    v = _single(P, CM.MOD, "latlon_to_xy", [lat, lon, rlat, rlon]).value
+    if not (isinstance(v, Tup) and len(v.items) == 2 and all(isinstance(i, Expr) for i in v.items)):
+        raise AnalysisError("latlon_to_xy does not return a pair of scalars: %r" % (v,))
+    return v.items
+
+
+def geo_inverse(P, x, y, rlat, rlon):
+    v = _single(P, "bldfm.plotting._geo", "xy_to_latlon", [x, y, rlat, rlon]).value
+    if not (isinstance(v, Tup) and len(v.items) == 2 and all(isinstance(i, Expr) for i in v.items)):
+        raise AnalysisError("xy_to_latlon does not return a pair of scalars: %r" % (v,))
+    return v.items
+
+
+def geo_obligations(P, rule="R-GEO"):
+    obs = []
+    lat, lon, rlat, rlon = alg.sym("lat"), alg.sym("lon"), alg.sym("ref_lat"), alg.sym("ref_lon")
+    # physical-domain table: non-polar reference latitude => cos(ref_lat) > 0
+    alg.fn("cos", rlat * alg.atom_expr(alg.PI) / 180, pos=True)
+    x, y = geo_forward(P, lat, lon, rlat, rlon)
+    s_f = "src/bldfm/config_parser.py::latlon_to_xy"
+    s_g = "src/bldfm/plotting/_geo.py::xy_to_latlon"
+    la, lo = lat.top_atoms().pop(), lon.top_atoms().pop()
+    obs.append(eq_ob(rule, s_f, "the reference origin maps to x = 0", x.subs({la: rlat, lo: rlon}), ZERO))
+    obs.append(eq_ob(rule, s_f, "the reference origin maps to y = 0", y.subs({la: rlat, lo: rlon}), ZERO))
+    dxdlon, dxdlat, dydlon, dydlat = alg.diff(x, lo), alg.diff(x, la), alg.diff(y, lo), alg.diff(y, la)
+    obs.append(req_ob(rule, s_f, "x grows eastward (dx/dlon > 0 at non-polar reference latitudes)", alg.manifest_sign(dxdlon) == {"+"}, detail="dx/dlon = %r" % (dxdlon,)))
+    obs.append(req_ob(rule, s_f, "y grows northward (dy/dlat > 0)", alg.manifest_sign(dydlat) == {"+"}, detail="dy/dlat = %r" % (dydlat,)))
+    obs.append(eq_ob(rule, s_f, "x does not depend on the latitude of the point", dxdlat, ZERO))
+    obs.append(eq_ob(rule, s_f, "y does not depend on the longitude of the point", dydlon, ZERO))
+    obs.append(eq_ob(rule, s_f, "x is linear in longitude with the metric factor taken at the reference latitude", x, dxdlon * (lon - rlon)))
+    obs.append(eq_ob(rule, s_f, "y is linear in latitude", y, dydlat * (lat - rlat)))
+    # inverse compositions
+    lat2, lon2 = geo_inverse(P, x, y, rlat, rlon)
+    obs.append(eq_ob(rule, s_g, "xy_to_latlon(latlon_to_xy(lat, lon)) returns the latitude", lat2, lat, "mutual inverses"))
+    obs.append(eq_ob(rule, s_g, "xy_to_latlon(latlon_to_xy(lat, lon)) returns the longitude", lon2, lon, "mutual inverses"))
+    xs, ys = alg.sym("x_m"), alg.sym("y_m")
+    la3, lo3 = geo_inverse(P, xs, ys, rlat, rlon)
+    x3, y3 = geo_forward(P, la3, lo3, rlat, rlon)
+    obs.append(eq_ob(rule, s_f, "latlon_to_xy(xy_to_latlon(x, y)) returns x", x3, xs, "mutual inverses"))
+    obs.append(eq_ob(rule, s_f, "latlon_to_xy(xy_to_latlon(x, y)) returns y", y3, ys, "mutual inverses"))
+    return obs
+
+
+def tower_xy_obligations(P, rule="R-GEO"):
+    obs = []
+    mod = P.module(CM.MOD)
+    site = "src/bldfm/config_parser.py::TowerConfig.compute_local_xy"
+    tower = CM.make_obj(P, "TowerConfig", "tower", {})
+    rl, ro = alg.sym("ref_lat"), alg.sym("ref_lon")
+    fn = P.function(CM.MOD, "TowerConfig.compute_local_xy")
+    res = explore(lambda dec: Interp(P, dec), lambda it: it.run_function(mod, fn, [tower, rl, ro], {}))
+    ex, ey = geo_forward(P, tower.attrs["lat"], tower.attrs["lon"], rl, ro)
+    ok = len(res) == 1 and res[0].kind == "return"
+    obs.append(req_ob(rule, site, "single path", ok))
+    if ok:
+        obs.append(eq_ob(rule, site, "tower.x is the easting of (lat, lon) relative to the reference", tower.attrs.get("x"), ex))
+        obs.append(eq_ob(rule, site, "tower.y is the northing of (lat, lon) relative to the reference", tower.attrs.get("y"), ey))
+    # __post_init__ fills every tower from (domain.ref_lat, domain.ref_lon)
+    site = "src/bldfm/config_parser.py::BLDFMConfig.__post_init__"
+    cfg = CM.make_obj(P, "BLDFMConfig", "config", {})
+    fn = P.function(CM.MOD, "BLDFMConfig.__post_init__")
+    res = explore(lambda dec: Interp(P, dec), lambda it: it.run_function(mod, fn, [cfg], {}))
+    rets = [r for r in res if r.kind == "return"]
+    obs.append(req_ob(rule, site, "configuration construction completes", len(rets) >= 1))
+    dom = cfg.attrs["domain"].attrs
+    for k, t in enumerate(cfg.attrs["towers"].items):
+        ex, ey = geo_forward(P, t.attrs["lat"], t.attrs["lon"], dom["ref_lat"], dom["ref_lon"])
+        obs.append(eq_ob(rule, site, "tower %d: x filled from (ref_lat, ref_lon) at construction" % k, t.attrs.get("x"), ex))
+        obs.append(eq_ob(rule, site, "tower %d: y filled from (ref_lat, ref_lon) at construction" % k, t.attrs.get("y"), ey))
+    return obs
+
+
+def check_C17(P, tier):
+    R = Result("C17", tier)
+    R.min_obligations = 18
+    R.explanation = ("latlon_to_xy and xy_to_latlon are interpreted abstractly and composed in both orders: the compositions are the identity as exact algebraic "
+                     "identities (same Earth radius, cosine at the reference latitude in both); the origin maps to (0,0); dx/dlon > 0 (cos(ref_lat) > 0 on the "
+                     "non-polar domain), dy/dlat > 0, cross derivatives vanish; tower coordinates are filled from (ref_lat, ref_lon) at construction. The 0.1 % / 0.1 degree "
+                     "agreement with great-circle geometry is a property of the equirectangular map, not of this code, and is not decided.")
+    R.trusted = [TRUST, "math.radians/np.radians = x*pi/180, np.degrees = x*180/pi"]
+    R.add(geo_obligations(P))
+    R.add(tower_xy_obligations(P))
+    R.analysed = {"files": ["src/bldfm/config_parser.py", "src/bldfm/plotting/_geo.py"], "functions": ["latlon_to_xy", "xy_to_latlon", "TowerConfig.compute_local_xy", "BLDFMConfig.__post_init__"], "paths": 6}
+    return R, "composition of normal forms is the identity; sign of symbolic derivatives"
